@@ -29,7 +29,7 @@ from simkit.rng import seed_globals  # noqa: E402
 from simkit.world import InvalidScenario, Monitor, Violation, result, run_sim, seeded_uuid  # noqa: E402
 
 PROPERTY = "C09"
-RUNS = {"quick": 12_000, "thorough": 500_000}
+RUNS = {"quick": 12_000, "thorough": 5_000_000}
 WALL = {"quick": 40, "thorough": 1500}
 BATCH = {"quick": 250, "thorough": 1000}
 SELFTEST_RUNS = 24
